@@ -179,6 +179,8 @@ def flatten_includes(types):
     def inherited(d):
         out = []
         for inc in d.get("includes", []):
+            if inc["name"] not in recs:
+                continue            # the runtime's own EmptyRecord: nothing to inherit
             p = recs[inc["name"]]
             for f in inherited(p):
                 out.append(f)
